@@ -81,3 +81,90 @@ Definition method_in_language (m : method) : bool :=
   m_request m && m_path_params_ok m && match m_http m with HUnspecified => false | _ => true end.
 Definition service_in_language (sv : service) : bool :=
   match sv_methods sv with [] => false | _ => true end && forallb method_in_language (sv_methods sv).
+
+(* ---- topics (sourcewalk/topic.go acceptTopic + conversion.go visitTopicNode): the messages become
+   objects of the topic file; reqres and upsert messages get a required metadata field whose type
+   lives in j5/messaging/v1/{reqres,upsert}.proto (an implicit import) *)
+Inductive topic := TPublish (messages : nat) | TReqRes (requests replies : nat) | TUpsert | TEvent.
+
+Definition topic_messages (t : topic) : nat :=
+  match t with TPublish n => n | TReqRes a b => a + b | TUpsert => 1 | TEvent => 1 end.
+Definition topic_has_metadata (t : topic) : bool :=
+  match t with TReqRes _ _ | TUpsert => true | _ => false end.
+(* a reqres topic is two services (request and reply), each visited like a topic of its own *)
+Definition compile_topic (t : topic) : dstate :=
+  let has_msgs := Nat.ltb 0 (topic_messages t) in
+  let s := if has_msgs then set_d st_object_msg (ens IJ5Ext d0) else d0 in
+  (* the metadata field: resolveType imports the type's file; required: validate + j5 ext imports *)
+  let s := if has_msgs && topic_has_metadata t then ens IJ5Ext (ens IBufValidate (ens IRefFile s)) else s in
+  ens IGEmpty (ens IMsgAnnotations (set_d st_topic_service s)).
+
+(* ---- the shells of objects and oneofs (visitObjectNode / visitOneofNode), without properties *)
+Definition compile_object_shell (entity : bool) : dstate :=
+  let s := if entity then set_d st_object_psm (ens IJ5Ext d0) else d0 in
+  set_d st_object_msg (ens IJ5Ext s).
+Definition compile_oneof_shell : dstate := set_d st_oneof_msg (ens IJ5Ext d0).
+
+(* ---- a whole source file: any number of declarations, objects and oneofs with any number of
+   properties.  A property's conversion neither reads the file's import list nor the errors recorded so
+   far (ensureImport and addError only append), so its contribution to the file is what it contributes
+   alone (compile_iso): imports ensured and extensions set when it converts, one recorded error when it
+   does not.  Services and topics go to the sub-package files <pkg>/service and <pkg>/topic. *)
+Definition merge (a b : dstate) : dstate :=
+  mkD (fold_left (fun l i => add_imp i l) (d_imps b) (d_imps a))
+      (fold_left (fun l e => add_ext e l) (d_exts b) (d_exts a))
+      (d_nerr a + d_nerr b) (d_panic a || d_panic b).
+
+Definition prop_state (p : prop) : dstate :=
+  let o := compile_iso p in
+  match o_verdict o with
+  | VPanic => mkD [] [] 0 true
+  | VConvErr => mkD [] [] (iso_nerr p) false
+  | _ => mkD (o_imps o) (o_exts o) 0 false
+  end.
+
+Inductive decl :=
+| DObject (entity : bool) (props : list prop)
+| DOneof (props : list prop)
+| DEnum (e : enum_decl)
+| DService (sv : service)
+| DTopic (t : topic).
+
+Definition decl_state (d : decl) : dstate :=
+  match d with
+  | DObject entity props => fold_left (fun s p => merge s (prop_state p)) props (compile_object_shell entity)
+  | DOneof props => fold_left (fun s p => merge s (prop_state p)) props compile_oneof_shell
+  | DEnum e => compile_enum e
+  | DService sv => compile_service sv
+  | DTopic t => compile_topic t
+  end.
+Inductive target := FMain | FService | FTopic.
+Definition decl_target (d : decl) : target :=
+  match d with DService _ => FService | DTopic _ => FTopic | _ => FMain end.
+Definition target_eqb (a b : target) : bool :=
+  match a, b with FMain, FMain | FService, FService | FTopic, FTopic => true | _, _ => false end.
+
+(* the state of one output file of a source file *)
+Definition file_state (t : target) (ds : list decl) : dstate :=
+  fold_left (fun s d => if target_eqb (decl_target d) t then merge s (decl_state d) else s) ds d0.
+(* ConvertJ5File fails as a whole when any declaration recorded an error; otherwise each output links or not *)
+Definition file_nerr (ds : list decl) : nat := d_nerr (file_state FMain ds) + d_nerr (file_state FService ds) + d_nerr (file_state FTopic ds).
+Definition file_panics (ds : list decl) : bool := d_panic (file_state FMain ds) || d_panic (file_state FService ds) || d_panic (file_state FTopic ds).
+Definition file_verdict (ds : list decl) : verdict :=
+  if file_panics ds then VPanic
+  else if Nat.ltb 0 (file_nerr ds) then VConvErr
+  else if links_d (file_state FMain ds) && links_d (file_state FService ds) && links_d (file_state FTopic ds) then VOk
+  else VLinkErr.
+
+Definition decl_has_list_request (d : decl) : bool :=
+  match d with DService sv => existsb m_list_request (sv_methods sv) | _ => false end.
+(* the documented language, per declaration: every property / method in the language, none of the two
+   recorded gaps *)
+Definition prop_accepted (p : prop) : bool :=
+  in_language p && negb (uses_float_rules p) && negb (uses_informal_key_listrules p).
+Definition decl_in_language (d : decl) : bool :=
+  match d with
+  | DObject _ props | DOneof props => forallb prop_accepted props
+  | DEnum _ | DTopic _ => true
+  | DService sv => service_in_language sv
+  end.
